@@ -165,6 +165,8 @@ def golomb_consistency_algorithm(
         for i in range(ni_var_idx - 1, mark_nb - 1):
             for j in range(i + 1, mark_nb):
                 dom_idx = dom_indices_arr[index(mark_nb, i, j)]
+                if minimal_sum[j - i] <= shr_domains_stack[top, dom_idx, MIN]:
+                    continue  # a minimum is only ever raised, lowering it would undo the work of the propagators
                 shr_domains_stack[top, dom_idx, MIN] = minimal_sum[j - i]  # no offset
                 events = EVENT_MASK_MIN
                 if shr_domains_stack[top, dom_idx, MIN] == shr_domains_stack[top, dom_idx, MAX]:
